@@ -543,7 +543,16 @@ class LanguageGraph():
                     next_link = None)
                 new_dep_chain.left_chain = lh_dep_chain
                 new_dep_chain.right_chain = rh_dep_chain
-                return (lh_target_asset,
+
+                new_target_asset = lh_target_asset
+                if step_expression['type'] == 'union':
+                    # A union can contain assets of either operand type, so
+                    # its target is their closest common super asset.
+                    while not rh_target_asset.is_subasset_of(
+                            new_target_asset):
+                        new_target_asset = new_target_asset.super_assets[0]
+
+                return (new_target_asset,
                     new_dep_chain,
                     None)
 
